@@ -10,8 +10,8 @@
    last in the order gets v_c = total (Example C20_range_total_attained), and for f = 0 the
    interval [0,0) is empty.  This is a property of the sum in the property's first clause, not of
    the code.  C20_range states the sharp bound. *)
-From Coq Require Import List Arith QArith Qabs Bool ZArith Permutation.
-From BL Require Import Model.SourceArea Model.SourceAreaExec Proofs.SourceAreaProofs.
+From Coq Require Import List Arith QArith Qabs Bool ZArith Permutation Lia.
+From BL Require Import Model.SourceArea Model.SourceAreaExec Proofs.SourceAreaProofs Model.SADesc Proofs.SABridgeLemmas.
 Import ListNotations.
 Open Scope Q_scope.
 
@@ -199,6 +199,35 @@ Proof.
   split; [vm_compute; reflexivity|]. split; vm_compute; reflexivity.
 Qed.
 
+(* ---- the two facts that connect the programs of the source (tie B, Model/SADesc.v + Bridge/SABridge.v) with the
+   hypotheses above *)
+
+(* the order both functions use, np.argsort(x)[::-1]: the reverse of ANY ascending sorting permutation satisfies
+   sorts_desc, the hypothesis of every theorem above (no stability or tie rule of argsort is needed) *)
+Theorem C20_reversed_argsort_order : forall (x : list Q) (o : list nat),
+  sorts_asc x o -> sorts_desc x (rev o).
+Proof. exact sorts_asc_rev_desc. Qed.
+
+(* get_source_area allocates its result with np.empty_like (uninitialised memory): over a permutation of all cells the
+   stores overwrite every cell, so the result is the model's get_source_area whatever the buffer contained *)
+Theorem C20_empty_like_contents_irrelevant : forall (junk : Q) (f : list Q) (o : list nat) (n : nat),
+  Permutation o (seq 0 n) ->
+  scatter_into (repeat junk n) o (shift (cumsum (gather f o))) = get_source_area f o.
+Proof. exact gsa_of_scatter_into. Qed.
+
+Example C20_nonvacuous_argsort_order :
+  let x := [3; 1; 2] in let o := [1; 2; 0]%nat in
+  sorts_asc x o /\ rev o = [0; 2; 1]%nat /\
+  scatter_into (repeat (7#3) 3) (rev o) (shift (cumsum (gather [1#2; 1#4; 1#4] (rev o)))) = [0; 6#8; 1#2].
+Proof.
+  cbv zeta. split; [split|split].
+  - apply is_perm_b_sound. vm_compute. reflexivity.
+  - intros i j Hij Hj. simpl in Hj.
+    destruct i as [|[|[|i]]]; destruct j as [|[|[|j]]]; simpl; try lia; unfold Qle; simpl; lia.
+  - reflexivity.
+  - vm_compute. reflexivity.
+Qed.
+
 Goal True. idtac "THEOREM C20_shape". Abort. Print Assumptions C20_shape.
 Goal True. idtac "THEOREM C20_rescaled_bounds". Abort. Print Assumptions C20_rescaled_bounds.
 Goal True. idtac "THEOREM C20_rescaled_exact". Abort. Print Assumptions C20_rescaled_exact.
@@ -212,3 +241,5 @@ Goal True. idtac "THEOREM C20_percentile_monotone". Abort. Print Assumptions C20
 Goal True. idtac "THEOREM C20_scaling". Abort. Print Assumptions C20_scaling.
 Goal True. idtac "THEOREM C20_order_check_sound". Abort. Print Assumptions C20_order_check_sound.
 Goal True. idtac "THEOREM C20_binary_search". Abort. Print Assumptions C20_binary_search.
+Goal True. idtac "THEOREM C20_reversed_argsort_order". Abort. Print Assumptions C20_reversed_argsort_order.
+Goal True. idtac "THEOREM C20_empty_like_contents_irrelevant". Abort. Print Assumptions C20_empty_like_contents_irrelevant.
